@@ -19,7 +19,7 @@ RULE = (
     "(digits, signs, . , e E _ n a i f blank tab newline NUL, Arabic-Indic and full-width digits, / :) placed at "
     "column 0 and inside a 2-character margin whose content varies (locality twins); random longer lines; bytes: all "
     "65536 two-byte payloads for 2-byte ints and floats, sampled 4/8-byte payloads, every truncation length, invalid "
-    "UTF-8 families; failing reads interleaved with succeeding ones (no stale value), three lines in ten of a random sequence repeat an earlier line of it; a quarter of the random sequences, every fourth exhaustive batch and every other two-byte batch hand the SAME field object lines of BOTH kinds (str and bytes interleaved, an earlier line of the first kind read again afterwards): each read means what its own line's kind and span mean, whatever kind was read before. Independently the model's "
+    "UTF-8 families; failing reads interleaved with succeeding ones (no stale value), three lines in ten of a random sequence repeat an earlier line of it; a quarter of the random sequences, every fourth exhaustive batch and every other two-byte batch hand the SAME field object lines of BOTH kinds (str and bytes interleaved, an earlier line of the first kind read again afterwards): each read means what its own line's kind and span mean, whatever kind was read before; a quarter of the random sequences, every fourth exhaustive batch and every fourth two-byte batch read through a field object that was DECLARED elsewhere or wider/narrower and brought to the span by the public setters (ending_position alone, starting_position alone, both in either order, size alone; half of them after a first read at the declared place): the span that is read is [starting_position, ending_position) as the object reports it at the time of the read, and the model is asked about that span only. Independently the model's "
     "expectation is compared with CPython's own int()/float()/strptime()/strip()/struct on the same span (model "
     "validation). non-trivial = the span is not empty; distinct by full case."
 )
@@ -82,8 +82,33 @@ def bin_reference(fd, span: bytes):
         return None
 
 
+def width_of(k, size):
+    """Width of the binary number a field DECLARED with this size holds (only int/flt have one)."""
+    return (size if size in (2, 4, 8) else 4) if k in ("int", "flt") else 0
+
+
+def build(case):
+    """The field object of a case. Without "moved": declared at the span. With "moved": declared with
+    (size0, start0), possibly used once there, and then brought to the span of case["field"] through the
+    public setters; the harness itself verifies that the object then REPORTS that span."""
+    fd, mv = case["field"], case.get("moved")
+    if not mv:
+        return codec.mk_field(fd)
+    f = codec.mk_field({**fd, "size": mv["size0"], "start": mv["start0"]})
+    if mv.get("warm") and case["lines"]:
+        try:
+            f.read(codec.dec_data(case["lines"][0]))
+        except Exception:
+            pass
+    for name, val in mv["steps"]:
+        setattr(f, name, val)
+    if (f.starting_position, f.ending_position) != (fd["start"], fd["start"] + fd["size"]):
+        raise AssertionError(f"generator: the moves {mv} do not lead to the span of {fd}: object reports [{f.starting_position},{f.ending_position})")
+    return f
+
+
 def run_impl(case):
-    f = codec.mk_field(case["field"])
+    f = build(case)
     outs, refs = [], []
     for n, lj in enumerate(case["lines"]):
         line = codec.dec_data(lj)
@@ -145,6 +170,11 @@ def judge(case, obs, resp):
         kinds = ["bytes" if "b" in l else "str" for l in case["lines"]]
         if i and kinds[i] not in kinds[:i]:
             what = f"(a {kinds[i]} line, after {kinds[0]} lines through the same field object) " + what
+        mv = case.get("moved")
+        if mv:
+            fd = case["field"]
+            what = (f"(field declared with size={mv['size0']} start={mv['start0']}, then " + ", ".join(f"{n} = {v}" for n, v in mv["steps"])
+                    + f": it reports the span [{fd['start']},{fd['start'] + fd['size']})) " + what)
         return {"status": "oracle", "why": f"read #{i} {what}; the span means {b['expected']}"}
     return {"status": "ok", "why": ""}
 
@@ -157,6 +187,8 @@ def features(case, obs):
     f = [f"kind={case['field']['k']}", "bytes" if "b" in case["lines"][0] else "str", f"reads={min(len(case['lines']), 64)}"]
     if len(kinds_of(case)) > 1:
         f.append("str_and_bytes_through_one_object")
+    if case.get("moved"):
+        f.append("span_set_by_" + "+".join(n for n, _ in case["moved"]["steps"]))
     outs = obs.get("outs", [])
     n_none = sum(1 for o in outs if o is None)
     f.append("has_invalid_span" if n_none else "all_valid")
@@ -170,7 +202,7 @@ def kinds_of(case):
 
 
 def signature(rec):
-    return rec["case"]["field"]["k"] + ("b" if "b" in rec["case"]["lines"][0] else "s") + ("+mixed" if len(kinds_of(rec["case"])) > 1 else "")
+    return rec["case"]["field"]["k"] + ("b" if "b" in rec["case"]["lines"][0] else "s") + ("+mixed" if len(kinds_of(rec["case"])) > 1 else "") + ("+moved" if rec["case"].get("moved") else "")
 
 
 def matches_known(trigger, case):
@@ -181,7 +213,12 @@ def snippet(case):
     return f"""import sys; sys.path.insert(0, '/verif/harness'); sys.path.insert(0, '/repo')
 import codec
 case = {json.dumps(case)}
-f = codec.mk_field(case['field'])
+mv = case.get('moved')
+f = codec.mk_field(dict(case['field'], size=mv['size0'], start=mv['start0']) if mv else case['field'])
+if mv:
+    if mv.get('warm') and case['lines']: f.read(codec.dec_data(case['lines'][0]))
+    for name, val in mv['steps']: setattr(f, name, val)
+print('span reported by the object:', f.starting_position, f.ending_position)
 for l in case['lines']:
     line = codec.dec_data(l)
     try: print(repr(line), '->', repr(f.read(line)))
@@ -216,6 +253,8 @@ def exhaustive_text(fd, maxlen, alpha, seed):
                 if j % 16 == 7:
                     mixed.append(codec.enc_data(codec.dec_data(l).encode("utf-8")))
             batch = mixed
+        if nb % 4 == 2:
+            return move(random.Random(seed * 100003 + nb), {"field": fd, "lines": batch}, 1.0)
         return {"field": fd, "lines": batch}
 
     for n in range(0, maxlen + 1):
@@ -255,7 +294,7 @@ def random_text_case(rng, fd_pool):
             lines.append(rng.choice(lines))
             continue
         lines.append(codec.enc_data(a_text_line(rng, fd)))
-    return mix_kinds(rng, {"field": fd, "lines": lines})
+    return move(rng, mix_kinds(rng, {"field": fd, "lines": lines}))
 
 
 def a_text_line(rng, fd):
@@ -290,6 +329,43 @@ def mix_kinds(rng, case, p=0.25):
     return {"field": fd, "lines": lines}
 
 
+def move(rng, case, p=0.25):
+    """With probability p the field object of the case is not declared at the span but brought there through
+    the public setters. The declaration (size0, start0) is chosen so that the moves lead exactly to the span
+    of case["field"]; for binary numbers the declared width is kept (the width is part of the declaration,
+    not of the span)."""
+    if rng.random() >= p:
+        return case
+    fd = case["field"]
+    k, size, start = fd["k"], fd["size"], fd["start"]
+    end = start + size
+    binary = k in ("int", "flt") and "b" in kinds_of(case)
+    ok = lambda s0: s0 >= 1 and (not binary or width_of(k, s0) == width_of(k, size))
+    how = rng.choice(["end", "start", "both", "both_rev", "size"])
+    size0, start0, steps = size, start, None
+    if how == "end":
+        cands = [s for s in range(1, 15) if s != size and ok(s)]
+        if cands:
+            size0, steps = rng.choice(cands), [["ending_position", end]]
+    elif how == "start":
+        cands = [p0 for p0 in range(0, end) if p0 != start and ok(end - p0)]
+        if cands:
+            start0 = rng.choice(cands)
+            size0, steps = end - start0, [["starting_position", start]]
+    elif how == "size":
+        steps = [["size", rng.choice([s for s in range(0, 15) if s != size])]]
+    if steps is None:
+        cands = [s for s in range(1, 15) if ok(s)]
+        size0 = rng.choice(cands)
+        start0 = rng.choice([p0 for p0 in range(0, 9) if (p0, size0) != (start, size)])
+        steps = [["starting_position", start], ["ending_position", end]]
+        if how == "both_rev":
+            steps.reverse()
+        if rng.random() < 0.3:
+            steps.append(["size", size])
+    return {**case, "moved": {"size0": size0, "start0": start0, "warm": rng.random() < 0.5, "steps": steps}}
+
+
 BAD_UTF8 = [b"\x80", b"\xc0\x80", b"\xed\xa0\x80", b"\xe2\x82", b"\xf5\x80\x80\x80", b"\xff", b"\xc3\xa9", b"\xe2\x82\xac"]
 
 
@@ -303,7 +379,8 @@ def bytes_cases_2byte(kind, part, of):
             # every other batch: str lines in between, through the same field object
             batch.append(codec.enc_data(["12", "-3", " 7", "1.5", "x", ""][(v // of) % 6]))
         if len(batch) >= 256:
-            yield {"field": fd, "lines": batch}
+            c = {"field": fd, "lines": batch}
+            yield move(random.Random(part * 1009 + nb), c, 1.0) if nb % 4 == 2 else c
             batch = []
             nb += 1
     if batch:
@@ -323,7 +400,7 @@ def random_bytes_case(rng):
     lines = []
     for _ in range(rng.randrange(1, 10)):
         lines.append(codec.enc_data(a_bytes_line(rng, fd)))
-    return mix_kinds(rng, {"field": fd, "lines": lines})
+    return move(rng, mix_kinds(rng, {"field": fd, "lines": lines}))
 
 
 def a_bytes_line(rng, fd):
@@ -406,6 +483,10 @@ def cases_of(chunk):
 def shrinks(case):
     ls = case["lines"]
     n = len(ls)
+    if case.get("moved"):
+        yield {k: v for k, v in case.items() if k != "moved"}
+        if case["moved"].get("warm"):
+            yield {**case, "moved": {**case["moved"], "warm": False}}
     if n > 1:
         # whole blocks first (halves, quarters, ...), so that a long batch comes down in few steps
         k = n // 2
